@@ -10,7 +10,7 @@ the output) and `chunk` (short-read pattern of the reader) do not influence the 
 result: `<res> <final pos> lim=<limit used> <merged trace>` -/
 import DdsModel.Drv.Util
 import DdsModel.Stream
-namespace Dds.Drv
+namespace Dds.Drv.C06
 open Dds Dds.Stream
 
 def resName : Res → String
@@ -86,4 +86,8 @@ def runC06 (line : String) : String :=
       | _, _, _, _ => "bad-case"
     | _ => "bad-case"
 
+end Dds.Drv.C06
+
+namespace Dds.Drv
+def runC06 : String → String := C06.runC06
 end Dds.Drv
